@@ -6,10 +6,19 @@
 (*              Gen: one JSON line per configuration).                       *)
 (*  SpecCoord : the coordinator over a pool of files (valid and defective),  *)
 (*              reloads with and without a failing subscriber.               *)
-EXTENDS Config, Json
+(*  SpecBody  : the parts of a document below the routing tree.  (a) time    *)
+(*              interval bodies: from a configuration with one interval in   *)
+(*              `time_intervals:` and one in `mute_time_intervals:`, every    *)
+(*              body of at most MaxEdits tokens out of the boundary shapes   *)
+(*              of every field that has a parser and a marshaller of its     *)
+(*              own, then at most one ill-formed token; (b) secrets: every   *)
+(*              secret-bearing field (SecretSites) in every shape, at most   *)
+(*              MaxSecrets per document.                                     *)
+EXTENDS Config, Json, Sites_Config
 
 CONSTANTS MaxEdits, MaxNodes, MaxDepth, HistLen,
           MinDefectEdits,   \* a defect is injected only after this many edits (0 in exhaustive runs)
+          MaxSecrets,       \* secret-bearing fields set by one document (SpecBody)
           Pick(_)     \* PickAll: every parameter value (exhaustive); PickOne: one at random (simulation)
 PickAll(S) == S
 PickOne(S) == IF S = {} THEN {} ELSE {RandomElement(S)}
@@ -109,5 +118,86 @@ IdOpt(s) == IF s = << >> THEN 0 ELSE IdOf(s[1])
 CoordNext == \/ \E f \in Pick(Pool) : f[1] # file /\ WriteFile(f[1], f[2])
              \/ \E b \in Pick(BOOLEAN) : Reload(b)
 SpecCoord == CfgInit /\ [][CoordNext]_vars
+
+-----------------------------------------------------------------------------
+(* Time interval bodies and secrets (SpecBody).                              *)
+
+\* --- boundary shapes of every field with a parser / marshaller of its own
+TimeToks   == { <<0, 0>>, <<0, 1>>, <<9, 0>>, <<17, 30>>, <<23, 59>>, <<24, 0>> }
+TimesValid == { k \in [s : TimeToks, e : TimeToks] : TimesOK(k) }
+TimesBad   == { [s |-> <<9, 0>>,   e |-> <<9, 0>>],      \* start = end
+                [s |-> <<17, 30>>, e |-> <<9, 0>>],      \* start > end
+                [s |-> <<24, 0>>,  e |-> <<24, 0>>],
+                [s |-> <<0, 0>>,   e |-> <<24, 1>>],     \* no such time
+                [s |-> <<0, 0>>,   e |-> <<25, 0>>],
+                [s |-> <<9, 60>>,  e |-> <<24, 0>>] }
+Rg(b, e, r)    == [b |-> b, e |-> e, rng |-> r]
+Mo(b, e, r, n) == [b |-> b, e |-> e, rng |-> r, names |-> n]
+\* 0 = sunday .. 6 = saturday
+WeekValid  == { Rg(0, 0, FALSE), Rg(1, 1, FALSE), Rg(6, 6, FALSE),
+                Rg(0, 6, TRUE), Rg(1, 5, TRUE), Rg(5, 6, TRUE), Rg(0, 1, TRUE), Rg(3, 3, TRUE) }
+WeekBad    == { Rg(6, 0, TRUE), Rg(5, 1, TRUE) }
+DomValid   == { Rg(1, 1, FALSE), Rg(15, 15, FALSE), Rg(31, 31, FALSE), Rg(-1, -1, FALSE), Rg(-31, -31, FALSE),
+                Rg(1, 31, TRUE), Rg(1, -1, TRUE), Rg(-31, -1, TRUE), Rg(-3, -1, TRUE), Rg(28, 31, TRUE),
+                Rg(15, 15, TRUE) }
+DomBad     == { Rg(0, 0, FALSE), Rg(32, 32, FALSE), Rg(-32, -32, FALSE), Rg(-1, 1, TRUE), Rg(5, 1, TRUE),
+                Rg(-1, -5, TRUE), Rg(1, -31, TRUE), Rg(0, 5, TRUE) }
+MonthValid == { Mo(1, 1, FALSE, TRUE), Mo(6, 6, FALSE, TRUE), Mo(12, 12, FALSE, TRUE),
+                Mo(1, 1, FALSE, FALSE), Mo(12, 12, FALSE, FALSE), Mo(13, 13, FALSE, FALSE),
+                Mo(1, 12, TRUE, TRUE), Mo(11, 12, TRUE, TRUE), Mo(1, 2, TRUE, TRUE), Mo(12, 12, TRUE, TRUE),
+                Mo(1, 12, TRUE, FALSE), Mo(6, 8, TRUE, FALSE) }
+MonthBad   == { Mo(12, 1, TRUE, TRUE), Mo(8, 6, TRUE, FALSE) }
+YearValid  == { Rg(2024, 2024, FALSE), Rg(2024, 2030, TRUE), Rg(1970, 1970, TRUE) }
+YearBad    == { Rg(2030, 2024, TRUE) }
+LocBad     == { "Mars/Olympus" }
+
+FieldToks  == [times |-> TimesValid, weekdays |-> WeekValid, dom |-> DomValid,
+               months |-> MonthValid, years |-> YearValid]
+FieldBad   == [times |-> TimesBad, weekdays |-> WeekBad, dom |-> DomBad,
+               months |-> MonthBad, years |-> YearBad]
+Fields     == DOMAIN FieldToks
+MaxPerField == 3
+MaxElems    == 3
+
+T2 == CHOOSE t \in IntNames : t # T1
+\* one interval of each section, both referenced by the child route, both with a body
+BodyStart == AddBody(AddBody(AddActive(AddMute(AddInt(AddInt(V1, "ti", T1), "mti", T2), 2, T1), 2, T2), T1), T2)
+
+InBody   == file.ibody # << >>
+Elems    == file.ibody[1].elems
+CurElem  == Elems[Len(Elems)]
+WithTok(f, k) == SetElems(file, [Elems EXCEPT ![Len(Elems)][f] = Append(@, k)])
+WithLoc(l)    == SetElems(file, [Elems EXCEPT ![Len(Elems)].loc = l])
+
+BodyEdit ==
+  /\ InBody
+  /\ \/ \E f \in Pick(Fields) : \E k \in Pick(FieldToks[f] \ Range(CurElem[f])) :
+          Len(CurElem[f]) < MaxPerField /\ Edit(WithTok(f, k))
+     \/ \E l \in Pick(Zones) : CurElem.loc = "" /\ Edit(WithLoc(l))
+     \/ Len(Elems) < MaxElems /\ CurElem # EmptyElem /\ Edit(SetElems(file, Append(Elems, EmptyElem)))
+
+DefectName(f) == CASE f = "times" -> "interval_times" [] f = "weekdays" -> "interval_weekdays"
+                   [] f = "dom" -> "interval_days_of_month" [] f = "months" -> "interval_months"
+                   [] f = "years" -> "interval_years"
+BodyDefect ==
+  /\ InBody
+  /\ edits <= MinDefectEdits + 1
+  /\ \/ \E f \in Pick(Fields) : \E k \in Pick(FieldBad[f]) : Inject(WithTok(f, k), DefectName(f))
+     \/ \E l \in Pick(LocBad) : CurElem.loc = "" /\ Inject(WithLoc(l), "interval_location")
+
+Taken == {file.sec[i].site : i \in DOMAIN file.sec}
+SecretEdit ==
+  /\ ~InBody
+  /\ Len(file.sec) < MaxSecrets
+  /\ \E s \in Pick({x \in SecretSites : x.id \notin Taken}) : \E sh \in Pick(Shapes) :
+        (sh = "file" => s.file) /\ Edit(AddSecret(file, [site |-> s.id, type |-> s.type, shape |-> sh]))
+
+BodyInit == /\ file \in {BodyStart, V0}
+            /\ defect = "none"
+            /\ edits = 0
+            /\ CoordInit
+            /\ last = [op |-> "init"]
+BodyNext == BodyEdit \/ BodyDefect \/ SecretEdit
+SpecBody == BodyInit /\ [][BodyNext]_vars
 
 =============================================================================
